@@ -58,6 +58,15 @@ Proof.
   destruct (Hn rest i c E) as (c' & -> & Hm). destruct c as [|[|d] ci]; [subst; auto|subst; auto|].
   destruct Hm as (pi & -> & Hw). exact (Hw r).
 Qed.
+(* ... and what that denotation means when the program runs: a function value copies, for every depth-1 capture, the parent
+   frame's cell at its creation; over the closed specs of ANY nest, every cell of the innermost frame then holds the value of the
+   variable the ORIGINAL (ancestor depth, cell index) pair named *)
+Theorem C03_captured_value_is_the_named_variable : forall (value : Type) st (fs : list (frame value)),
+  (forall c, In c (last (close_all st) []) -> c = CVar) ->
+  consistent value (close_all st) fs ->
+  forall i h j, walk st 0 i = Some (h, j) ->
+  match fs with f :: _ => cell_at value fs h j = nth_error f i | [] => True end.
+Proof. exact captured_value_is_the_named_variable. Qed.
 (* a nest four deep: the innermost function uses a root variable, a variable two scopes up twice, and its parent's parameter *)
 Example C03_cells_nonvacuous :
   let st := [[CVar; CCap 3 0; CCap 2 1; CCap 2 1; CCap 1 0]; [CVar; CCap 1 0]; [CVar; CVar]; [CVar]] in
@@ -106,3 +115,4 @@ Print Assumptions C03_forward_gate_bounded.
 Print Assumptions C03_forward_shallow_rule_refuted.
 Print Assumptions C03_forward_gate_sound.
 Print Assumptions C03_forward_gate_exact.
+Print Assumptions C03_captured_value_is_the_named_variable.
